@@ -29,10 +29,11 @@ template<typename T> struct amplitude_kernel {   // non-negative, finite, but so
   explicit amplitude_kernel(T a = 1): amp(a) {}
   T operator()(const std::vector<T>& a, const std::vector<T>& b) const { T d = 0; for (size_t i = 0; i < a.size(); ++i) d += (a[i] - b[i]) * (a[i] - b[i]); return amp / (1 + d); }
 };
-// amplitudes below: amp * 2^level stays finite for the levels reached here, amp * n does not
+// amplitudes below: amp * 2^level stays finite up to level 9 (float: 10), more than either tier reaches with these kernels
+// (2e306 overflowed at level 7 in a thorough-tier merge: a false alarm of the harness); amp * n still overflows for n > 900
 template<typename K> K make_kernel(Rng&) { return K(); }
-template<> amplitude_kernel<float> make_kernel<amplitude_kernel<float>>(Rng& r) { static const float as[] = {1e36f, 2e36f, 1.0f, 1e30f}; return amplitude_kernel<float>(as[r.below(4)]); }
-template<> amplitude_kernel<double> make_kernel<amplitude_kernel<double>>(Rng& r) { static const double as[] = {1e306, 2e306, 1.0, 1e300}; return amplitude_kernel<double>(as[r.below(4)]); }
+template<> amplitude_kernel<float> make_kernel<amplitude_kernel<float>>(Rng& r) { static const float as[] = {1e35f, 2e35f, 1.0f, 1e30f}; return amplitude_kernel<float>(as[r.below(4)]); }
+template<> amplitude_kernel<double> make_kernel<amplitude_kernel<double>>(Rng& r) { static const double as[] = {1e305, 2e305, 1.0, 1e300}; return amplitude_kernel<double>(as[r.below(4)]); }
 template<> bandwidth_kernel<double> make_kernel<bandwidth_kernel<double>>(Rng& r) { static const double hs[] = {0.25, 0.5, 2.0, 4.0}; return bandwidth_kernel<double>(hs[r.below(4)]); }
 template<typename K> const char* kname();
 template<> const char* kname<bandwidth_kernel<double>>() { return "bandwidth-f64"; }
